@@ -33,3 +33,8 @@ theorem batch_only_while_executing {s : St} (h : Reach s) (hb : s.batch ≠ []) 
 example : stepQ init .execOne = none ∧ stepQ init .termExecOne = none := by decide
 
 end GN.Props.C03
+
+/-! ## The coupled system
+
+Proved in `GN/EventLoop/Combined.lean` (audited with this property): coupled system (GN/EventLoop/Combined.lean: Queue x Ledger with the guards of run()'s loop): a timer/interval delivery runs only at the select of a running loop with live work, or in Terminate's drain; while such a callback runs no queued function, immediate or other delivery can start, and vice versa; every run of the coupled system projects to runs of Queue and of Ledger, so all their invariants transfer.
+Theorems: `GN.EventLoop.Combined.job_callback_excludes_runAux`, `GN.EventLoop.Combined.delivery_and_exec_never_both_enabled`, `GN.EventLoop.Combined.delivery_only_at_select_or_in_drain`, `GN.EventLoop.Combined.reach_queue`, `GN.EventLoop.Combined.reach_ledger`. -/
